@@ -773,9 +773,15 @@ func tryReplay(prog *Program, cs *ContractSet, prop string, r ObResult, rep *Rep
 		rep.ReplayLog = "no replay: the obligation is a pure lemma (no code is executed)"
 		return
 	}
+	candidate := false
 	if r.Res.Status != "sat" {
-		rep.ReplayLog = "no replay: the solver gave no model (" + r.Res.Status + ")"
-		return
+		if r.Res.Status != "timeout" && r.Res.Status != "unknown" {
+			rep.ReplayLog = "no replay: the solver gave no model (" + r.Res.Status + ")"
+			return
+		}
+		// undecided: look for a candidate entry state with a reduced query and let the real code decide
+		candidate = true
+		rep.candidate = true
 	}
 	if x.uc.Region != "" {
 		tryReplayRegion(prog, cs, prop, r, rep)
@@ -1006,14 +1012,29 @@ func tryReplay(prog *Program, cs *ContractSet, prop string, r ObResult, rep *Rep
 		if ci > 30 {
 			break
 		}
+		if candidate {
+			break
+		}
 		res := Solve(ob.ScriptWith(append(append([]*Term{}, cse...), rep.extra...), gv), 20, false)
 		if res.Status == "sat" && len(res.Model) > 0 {
 			model = res.Model
 			break
 		}
 	}
+	if candidate {
+		for _, radius := range []int{2, 4, 8} {
+			res := Solve(ob.ScriptCandidate(radius, rep.extra, gv), 15, false)
+			if res.Status == "sat" && len(res.Model) > 0 {
+				model = res.Model
+				break
+			}
+		}
+	}
 	if model == nil {
 		rep.ReplayLog = "no replay: no solver returned values for the entry state"
+		if candidate {
+			rep.ReplayLog = "no replay: the obligation is undecided (" + r.Res.Status + ") and no candidate entry state was found with the reduced queries"
+		}
 		return
 	}
 	rep.scalars = map[*Term]string{}
@@ -1264,7 +1285,9 @@ func tryReplay(prog *Program, cs *ContractSet, prop string, r ObResult, rep *Rep
 		return
 	}
 	rep.Replayed = violated
-	if violated {
+	if violated && candidate {
+		rep.Note = "the obligation is undecided by the solvers (" + r.Res.Status + "); a candidate entry state from a reduced query was run through the real function and VIOLATES the clause (all evaluable preconditions hold): failing input found"
+	} else if violated {
 		rep.Note = "counterexample of the verifier replayed on the real function: the clause is violated on the concrete entry state below (model)"
 	} else {
 		log = "the real function satisfies the evaluated clauses on the model's entry state (the failing obligation is internal to the proof, or depends on an abstracted value)\n" + log
